@@ -866,6 +866,24 @@ func (st *State) Decide(c *Cond) Tri {
 	return Maybe
 }
 
+// rangeOverSmallArray: the counted loop is the range-index loop over an array of at most 8 elements (index phi starting at -1,
+// compared after the increment with the constant length).
+func rangeOverSmallArray(cl *countedLoop) bool {
+	k, isC := ssau.ConstInt(cl.bound)
+	if !isC || k < 1 || k > 8 || cl.dynStart || cl.cmpVal == ssa.Value(cl.phi) {
+		return false
+	}
+	for i, e := range cl.phi.Edges {
+		if cl.phi.Block().Dominates(cl.phi.Block().Preds[i]) {
+			continue
+		}
+		if n, ok := ssau.ConstInt(e); !ok || n != -1 {
+			return false
+		}
+	}
+	return true
+}
+
 // Assume adds the knowledge that c has truth value tv.
 func (st *State) Assume(c *Cond, tv bool) {
 	if c == nil {
@@ -1214,6 +1232,10 @@ func (ip *Interp) explore(f *ssa.Function, st *State, sum *Summary, onReturn fun
 			if !isBack && st.sum[b] == nil {
 				if ip.Oracle != nil {
 					st.setExact(b, 12)
+				} else if cl := findCountedLoop(b, li.body[b]); cl != nil && rangeOverSmallArray(cl) {
+					// `for _, x := range [...]T{a, b, c}`: a handful of iterations known at compile time — run them one by one
+					k, _ := ssau.ConstInt(cl.bound)
+					st.setExact(b, int(k)+2)
 				} else if ip.UnrollCount != nil && !st.phaseB[b] {
 					if cl := findCountedLoop(b, li.body[b]); cl != nil && !cl.dynStart && cl.start == 0 {
 						if ns := ip.UnrollCount(f, cl.bound); len(ns) > 0 {
